@@ -214,12 +214,18 @@ def check_view(ctx, st, g, args, width, trace):
 
 def summary_check(ctx, st, g, trace):
     """counts printed by the summary line = tasks per bucket in the view's scope"""
-    for args, scope in (["--all"], "all"), ([], "active"), (["--ready"], "ready"):
+    views = [(["--all"], "all", None), ([], "active", None), (["--ready"], "ready", None)]
+    # the same three views scoped to an epic: the counts are those of the epic's own tasks, each judged in the *whole* graph (an epic that waits
+    # for another epic has no ready task, whatever the scoped view leaves out)
+    for e in [t["id"] for t in g["tasks"] if t["is_epic"]][:6]:
+        # (the tree of one epic lists all of its tasks, finished ones included, with or without --all: that is the view's scope)
+        views += [(["--epic", e, "--all"], "all", e), (["--epic", e], "all", e), (["--epic", e, "--ready"], "ready", e)]
+    for args, scope, epic in views:
         r = st.exec(["list", *args])          # not quiet: summary included
         text = ANSI.sub("", r["stdout"])
         m = re.findall(r"(\d+) (ready|in progress|blocked|error|done|canceled)", text.split("\n\n")[-1] if "\n\n" in text else text)
         got = {k: int(n) for n, k in m}
-        tasks = [t for t in g["tasks"] if not t["is_epic"]]
+        tasks = [t for t in g["tasks"] if not t["is_epic"] and (epic is None or t.get("epic_id") == epic)]
         def bucket(t):
             if t["st"] == "todo": return "ready" if oracles.ready_spec(g, t) else "blocked"
             return {"doing": "in progress", "blocked": "blocked", "error": "error", "done": "done", "canceled": "canceled"}[t["st"]]
@@ -228,9 +234,9 @@ def summary_check(ctx, st, g, trace):
         want = {}
         for t in tasks:
             want[bucket(t)] = want.get(bucket(t), 0) + 1
-        ctx.count(1, key=("summary", scope, tuple(sorted(want))))
+        ctx.count(1, key=("summary", scope, epic is not None, tuple(sorted(want))))
         if tasks and got and got != want and not (scope == "ready" and not tasks):
-            ctx.violation("C19 summary counts (%s view)" % scope, "printed %s, tasks per bucket %s" % (got, want), {"trace": trace + [{"argv": ["list"] + args}]}); return True
+            ctx.violation("C19 summary counts (%s view%s)" % (scope, ", one epic" if epic else ""), "printed %s, tasks per bucket %s" % (got, want), {"trace": trace + [{"argv": ["list"] + args}]}); return True
     return False
 
 
